@@ -1015,6 +1015,8 @@ class Patron(object):
                                            ha=(hostname, port),
                                            bufsize=self.connector.bs,
                                            wlog=self.connector.wlog,
+                                           timeout=self.connector.timeout,
+                                           reconnectable=self.connector.reconnectable,
                                            context=context)
                 else:
                     connector = Client(store=self.connector.store,
@@ -1022,7 +1024,9 @@ class Patron(object):
                                         uid=self.connector.uid,
                                         ha=(hostname, port),
                                         bufsize=self.connector.bs,
-                                        wlog=self.connector.wlog,)
+                                        wlog=self.connector.wlog,
+                                        timeout=self.connector.timeout,
+                                        reconnectable=self.connector.reconnectable,)
 
                 self.secured = secured
                 self.connector = connector
